@@ -230,6 +230,12 @@ def check_fn(ctx, tu, info, f):
         want = sorted(['itemList'] + [t for t in TARGET_FIELDS if any(c['key'].endswith('ScopedRemover') and any(fl['name'] == t for fl in c['fields']) and c['q'] == f.clsq for c in tu.classes)])
         ctx.ob('C15.P4', f, 'swap exchanges the target and the record of both removers', flds == want and oflds == want,
                detail='exchanged %s / %s, expected %s' % (flds, oflds, want))
+        # ... on every path: a record that changes hands without its target (or the other way round) is detached from the wrong target,
+        # or from none at all when the receiving remover is unbound
+        cond = [w for w in sw if not f.pos_postdominates(w['pos'], (f.entry, 0))]
+        ctx.ob('C15.P4', f, 'both fields are exchanged unconditionally (record and target always travel together)', not cond,
+               detail='exchanged only on some paths: %s' % ', '.join(sorted({pstr(w['path']) + ' at ' + f.nloc(w['node']) for w in cond})),
+               key_detail='swap unconditional')
         return
     check_records_kept(ctx, tu, info, f)
     if name == 'reset':
